@@ -16,6 +16,7 @@ import (
 	"strconv"
 	"strings"
 	"sync"
+	"sync/atomic"
 	"syscall"
 )
 
@@ -81,7 +82,11 @@ type Pool struct {
 	Recycle int      // items per worker process before it is replaced
 	Env     []string // extra environment for workers
 	MemKB   int      // ulimit -v for workers (0 = 8 GiB)
+	stopped atomic.Bool
 }
+
+// Stop makes the pool skip all jobs not yet started (used after a hang / death was found).
+func (p *Pool) Stop() { p.stopped.Store(true) }
 
 // NewPool returns a pool with n workers (0 = number of CPUs).
 func NewPool(n, recycle int) *Pool {
@@ -175,6 +180,10 @@ func (p *Pool) Do(reqs []interface{}, onResult func(Result)) {
 				}
 			}()
 			for j := range jobs {
+				if p.stopped.Load() {
+					pending.Done()
+					continue
+				}
 				if w != nil && (w.served >= p.Recycle || j.retry) {
 					w.retire()
 					w = nil
